@@ -253,7 +253,42 @@ def extra_laws(cr):
         if got != "nomatch":
             sig = "law|context-nomatch"
             cr.add(sig, "$$.Nope.x -> %s" % got, {"kind": "law", "property": PROP, "signature": sig, "law": "context-nomatch", "doc": doc}, size=1)
+    # an input document that has the members of the Context Object (an earlier state may well carry a token, an item index ... along
+    # in the data): '$' paths read the input, '$$' paths the context, and only the context's task token is made opaque
+    import base64
+    shaped = {"Task": {"Token": "input-token"}, "Execution": {"Input": {"q": [7, 8]}, "Name": "input-name"}, "State": {"Name": "input-state", "RetryCount": 9},
+              "Map": {"Item": {"Index": 3, "Value": "input-value"}}, "StateMachine": {"Id": "input-id"}}
+    ctx2 = {"Task": {"Token": "context-token"}, "Execution": {"Input": {"q": [1, 0]}, "Name": "context-name"}, "State": {"Name": "context-state", "RetryCount": 1},
+            "Map": {"Item": {"Index": 0, "Value": "context-value"}}, "StateMachine": {"Id": "context-id"}}
+    def leaves(d, pre=""):
+        yield pre
+        if isinstance(d, dict):
+            for k, v in d.items():
+                yield from leaves(v, pre + "." + k)
+        elif isinstance(d, list):
+            for i, v in enumerate(d):
+                yield from leaves(v, pre + "[%d]" % i)
+    for lp in sorted(set(leaves(shaped)) | set(leaves(ctx2))):
+        for root, src in (("$", shaped), ("$$", ctx2)):
+            n += 1
+            want = follow_path(src, lp)
+            if root == "$$" and lp == ".Task.Token":
+                want = base64.b64encode(b"context-token").decode()
+            d0, c0 = copy.deepcopy(shaped), copy.deepcopy(ctx2)
+            try:
+                got = sp.apply_path(d0, c0, root + lp)
+            except Exception as e:
+                got = "raise:" + type(e).__name__
+            if json.dumps(got, sort_keys=True, default=repr) != json.dumps(want, sort_keys=True) or d0 != shaped or c0 != ctx2:
+                sig = "law|input-shaped-like-context|%s" % ("input" if root == "$" else "context")
+                cr.add(sig, "apply_path(input, context, %r) -> %r, expected %r (input %r, context %r)" % (root + lp, got, want, shaped, ctx2),
+                       {"kind": "law", "property": PROP, "signature": sig, "law": "input-shaped-like-context", "doc": shaped}, size=len(lp))
     return n
+
+def follow_path(d, lp):
+    for m in re.findall(r"\.([A-Za-z]+)|\[(\d+)\]", lp):
+        d = d[m[0]] if m[0] else d[int(m[1])]
+    return d
 
 EXEC_INPUTS = [{"a": {"n": 1, "k": [1, 2]}, "b": "keep"}, {"a": [5], "c": None}, {"a": 7}]
 
